@@ -314,7 +314,7 @@ def check(ctx):
         recs.extend(val)
     outs = {r0["out"] for r0 in recs}
     if not {"value", "NSP", "ZP", "AD"} <= outs:
-        raise core.Machinery("vacuity: outcome classes seen: %s" % sorted(outs))
+        core.vacuity("outcome classes seen: %s" % sorted(outs))
     d = tlc.scratch()
     tf = os.path.join(d, "traces.ndjson")
     with open(tf, "w") as f:
